@@ -173,13 +173,24 @@ package flate
 //@   ensures[C02 btype] state.phase == phaseHeaderDecoded
 //@   ensures[C02 C03 tables] tabsOK(state)
 
+// clcOK: the code length code has codes of at most 7 bits, so its table has no long-code entries.
+//@ pure clcOK(t *smallHuffCodeTable) bool = forall j :: 0 <= j && j < 1024 ==> t.ShortCodeLookup[j] & smallFlagBit == 0 && t.ShortCodeLookup[j]>>11 <= 7
+//@ pure lensOK(ctx *dynamicHeaderReader) bool = forall k :: 0 <= k && k < 514 ==> ctx.litAndDistHuff[k].codeAndLength>>24 <= 15
+
 //@ func (*inflate).readLitDistLens
-//@   trusted "not yet verified: code length decoding (RFC 1951 3.2.7) into the lit/len and distance length arrays"
-//@   requires[C03 ranges] 0 <= hlit && hlit <= 29 && 0 <= hdist && hdist <= 29 && ctx != nil
-//@   requires stBase(state)
+//@   requires[C03 ranges] 0 <= hlit && hlit <= 29 && 0 <= hdist && hdist <= 29 && ctx != nil && state != nil
+//@   requires stBase(state) && state.bitsLen >= 0 && clcOK(&ctx.clcTable) && lensOK(ctx)
 //@   modifies state.bits, state.bitsLen, state.input, *ctx
-//@   ensures err == nil || err == errEndInput || err == errInvalidBlock
-//@   ensures stBase(state) && state.bitsLen >= -64 && remBits(state) <= old(remBits(state)) && len(state.input) <= old(len(state.input)) && sameobj(state.input, old(state.input)) && (state.input == nil) == (old(state.input) == nil)
+//@   ensures[C03 classify] err == nil || err == errEndInput || err == errInvalidBlock
+//@   ensures[C03 C04 bits] stBase(state) && remBits(state) <= old(remBits(state)) && len(state.input) <= old(len(state.input)) && sameobj(state.input, old(state.input)) && (state.input == nil) == (old(state.input) == nil)
+//@   loop 1 invariant 0 <= curr && -1 <= prev && prev < curr && err == nil && (count == ctx.litCount[:] || count == ctx.distCount[:]) && -64 <= bitsLen && bitsLen <= 64 && (bitsLen < 0 ==> len(input) == 0) && len(input) <= 1073741824 && sameobj(input, old(state.input)) && len(input) <= old(len(state.input)) && (input == nil) == (old(state.input) == nil) && 8*len(input) + int(bitsLen) <= old(remBits(state)) && -7 <= bitsLen
+//@   loop 1 invariant lensOK(ctx)
+//@   loop 2 invariant -1 <= rangeindex && rangeindex < size && 0 <= size && size <= 8 && size <= len(input) && (size > 0 ==> 0 <= atentry(bitsLen)) && 8*size <= 64 - int(atentry(bitsLen)) && bitsLen == atentry(bitsLen) + int32(8*(rangeindex+1))
+//@   loop 3 invariant -1 <= rangeindex && rangeindex < size && 0 <= size && size <= 8 && size <= len(input) && (size > 0 ==> 0 <= atentry(bitsLen)) && 8*size <= 64 - int(atentry(bitsLen)) && bitsLen == atentry(bitsLen) + int32(8*(rangeindex+1))
+//@   loop 4 invariant 0 <= j && j <= i && 3 <= i && i <= 6 && 0 <= curr && 0 <= prev && prev < curr && curr <= end + 29 && curr + (i - j) <= end + 29 && err == nil && (count == ctx.litCount[:] || count == ctx.distCount[:]) && repCode.codeAndLength>>24 <= 15
+//@   loop 4 invariant lensOK(ctx)
+//@   loop 5 invariant -1 <= rangeindex && rangeindex < size && 0 <= size && size <= 8 && size <= len(input) && (size > 0 ==> 0 <= atentry(bitsLen)) && 8*size <= 64 - int(atentry(bitsLen)) && bitsLen == atentry(bitsLen) + int32(8*(rangeindex+1))
+//@   loop 6 invariant -1 <= rangeindex && rangeindex < size && 0 <= size && size <= 8 && size <= len(input) && (size > 0 ==> 0 <= atentry(bitsLen)) && 8*size <= 64 - int(atentry(bitsLen)) && bitsLen == atentry(bitsLen) + int32(8*(rangeindex+1))
 
 //@ func (*inflate).codeLenCodes
 //@   trusted "not yet verified: code length code lengths (HCLEN) and their decoding table"
@@ -187,6 +198,7 @@ package flate
 //@   requires stBase(state) && state.bitsLen >= 0
 //@   modifies state.bits, state.bitsLen, state.input, state.dynHdr.clcTable
 //@   ensures result == nil || result == errEndInput || result == errInvalidBlock
+//@   ensures result == nil ==> clcOK(&state.dynHdr.clcTable)
 //@   ensures stBase(state) && (result != errEndInput ==> state.bitsLen >= 0) && remBits(state) <= old(remBits(state)) && len(state.input) <= old(len(state.input)) && sameobj(state.input, old(state.input)) && (state.input == nil) == (old(state.input) == nil)
 
 //@ func setCodes
@@ -278,4 +290,5 @@ package flate
 
 //@ globalinv[C02 C03 static-lit-table] litTabOK(&staticLitHuffCode)
 //@ globalinv[C02 C03 static-dist-table] distTabOK(&staticDistHuffCode)
+//@ globalinv[C03 rfc-len] forall k :: 0 <= k && k < 32 ==> rfcLookupTable.LenExtraBitCount[k] <= 5
 //@ globalinv[C02 C03 rfc-dist] forall d :: 0 <= d && d < 30 ==> rfcLookupTable.DistExtraBitCount[d] <= 13 && rfcLookupTable.DistStart[d] >= 1 && int(rfcLookupTable.DistStart[d]) + (1 << uint(rfcLookupTable.DistExtraBitCount[d])) <= 32769
